@@ -47,19 +47,62 @@ def routes_ob(prog, cls, which):
               f"{C}::ConditionalGaussianPDF.affine_conditional_transformation", group="routes")
 
 
+def evidence_ob(prog, cls):
+    """log-integral of prior x likelihood factor == predictive log-density ln p(y) of the marginal transformation (one observation batch;
+    with the routes obligation and C04 this is the induction step for the accumulated evidence of any sequence).
+
+    Stated axioms: Woodbury  Inv(Sigma + M Sx M') = L - L M Inv(Lx + M'LM) M' L  and the determinant lemma
+    LnDet(Sigma + M Sx M') = LnDet(Sigma) + LnDet(Sx) + LnDet(Lx + M'LM), applied by substituting the opaque heads the analysed code
+    produced for the left-hand sides; the remaining difference is reduced with the defining relation X Inv(X) = I of the posterior covariance."""
+    anchor = f"{C}::ConditionalGaussianPDF.set_y"
+
+    def run():
+        from .drivers import cond_params
+        I, c, px, sizes = setup_cond(cls, "1/1")
+        Rc, Rx, Dy, Dx = sizes
+        N = sym("N")
+        y = build.points("y", N, Dy)
+        fac = I.call_method(c, "set_y", [y])
+        prod = I.call_method(px, "multiply", [fac])
+        ev = I.call_method(prod, "log_integral", [])                      # [N]
+        py = I.call_method(c, "affine_marginal_transformation", [px])
+        ref = I.call_method(py, "evaluate_ln", [y])                       # [1, N]
+        post = I.call_method(c, "affine_conditional_transformation", [px])
+        M, b, S, L, lds = cond_params(c, Rc, Dy, Dx)
+        Sp = post.f["Sigma"]
+        d = [("Sigma_y",) + tuple(q) for q in nf.diff(py.f["Sigma"], nf.add(S, nf.einsum("ryx,rxz,rwz->ryw", M, px.f["Sigma"], M)), what="Sigma_y")[:3]]
+        Lp_ref = nf.add(px.f["Lambda"], nf.einsum("ryx,ryw,rwz->rxz", M, L, M))
+        d += [("posterior covariance is not Inv(Lx + M'LM)",) + tuple(q) for q in nf.diff(Sp, nf.inverse(Lp_ref)[0], what="Sigma_post")[:3]]
+        woodbury = nf.add(L, nf.einsum("ryz,rzx,rxw,rvw,rvu->ryu", L, M, Sp, M, L), -1)
+        lemma = nf.add(nf.add(lds, px.f["ln_det_Sigma"]), nf.logdet(Lp_ref))
+        dv = nf.add(ev, Val(ref.axes[1:], ref.terms), -1)
+        dv = nf.subst_head_top(dv, py.f["Lambda"], woodbury, "Woodbury identity")
+        dv = nf.subst_head_top(dv, py.f["ln_det_Sigma"], lemma, "determinant lemma")
+        dv = nf.eliminate_inverse(dv)
+        d += [("log-integral minus predictive log-density",) + tuple(q) for q in nf.diff(dv, nf.scale(dv, 0), what="evidence")[:6]]
+        return d, dict(funcs=funcs_of(I), construct=anchor)
+    return Ob(f"evidence/{cls}", run,
+              "log of the integral of prior(x) * set_y(y)(x) == ln N(y; M mu + b, Sigma + M Sigma_x M') (the predictive log-density returned by the marginal transformation), "
+              "by the Woodbury identity and the determinant lemma (stated axioms)",
+              anchor, group="evidence")
+
+
 def obligations(tier):
     prog = model.load()
     obs = []
     for cls in drivers.COND_CLASSES:
         for which in ("joint", "product"):
             obs.append(routes_ob(prog, cls, which))
+    for cls in drivers.COND_CLASSES:
+        obs.append(evidence_ob(prog, cls))
     return obs
 
 
-FLOORS = {"group:routes": 8}
+FLOORS = {"group:routes": 8, "group:evidence": 4}
 LEVEL = "other"
 EXPLANATION = ("PARTIAL: for every linear conditional class and a GENERIC Gaussian prior (atoms satisfying the representation invariant) the posterior after one observation is the "
-               "same normal form through the three routes of the property. Because the prior is generic and every route returns an invariant density (C04), the equality "
-               "extends by induction to any number of observations; order independence of the product route is commutativity of natural-parameter addition (C01). "
-               "NOT decided: equality of the accumulated evidence with the log-integral (needs the Woodbury identity; and is false today whenever Dx != Dy because of the known "
-               "finding F1 in set_y), and the Kalman-filter clause against a dense joint over all states.")
+               "same normal form through the three routes of the property, and the log-integral of prior x likelihood factor equals the predictive log-density of the marginal "
+               "transformation (Woodbury identity and determinant lemma as stated axioms) - refuted today for the general classes by exactly the constant (Dy-Dx)/2 ln 2pi of the "
+               "known finding F1 in set_y, proved for the identity-mean classes. Because the prior is generic and every route returns an invariant density (C04), both equalities "
+               "extend by induction to any number of observations; order independence of the product route is commutativity of natural-parameter addition (C01). "
+               "NOT decided: the Kalman-filter clause against a dense joint over all states.")
